@@ -221,3 +221,901 @@ def rule_return_conditions(ctx):
     got = {_cube_text(c) for c in silent_return_conditions(pc)}
     r.positive_control(got == {'self.in_par', 'self.in_gen & self.value is None'}, 'two independent suppressing conditions are told apart: %s' % sorted(got))
     return r
+
+
+# ======================================================================================================================
+#  fourth round
+# ======================================================================================================================
+#  C45-ARGS    every argument of an emitted trace macro call reaches a macro parameter of its own kind.  Kinds on the Python side:
+#              result of pos_to_offset (instruction offset), pos[LINE] (line number), result of error_goto (error exit), a flag derived
+#              from `nogil` / `gil_owned`.  Roles of the macro parameters are derived from USE in every configuration's definition:
+#              the parameter tested by `if (nogil)`-style conditions, the one executed as the statement `goto_error;`, the one handed
+#              to the offset slot of PyMonitoring_Fire*Event / to PyCode_NewEmpty's firstlineno (through the helper functions).
+#  C45-NOGIL   every value bound to a `nogil` flag of the trace API is the NEGATION of a gil_owned value.
+#  C45-WINDOW  line events stay inside [start event, return event]: __Pyx_TraceLine is emitted only under funcstate.can_trace and only
+#              for markers recorded with trace=True; in every function that emits the start event no tracing marker / body code is
+#              emitted while the window is open before the start event or after the final return event; the start event of a generator
+#              body lies behind the resume dispatch.
+#  C45-BRANCH  macros of Profile.c: the nogil branch and the GIL branch deliver the same calls; legacy macros deliver exactly when
+#              __Pyx_use_tracing is set; the start event is delivered for skip_event == 0; both callbacks of a helper get the same event kind.
+#  C45-COUNT   the sys.monitoring state arrays: events used by non-generator macros lie below CyFunc_count, every EnterScope passes the
+#              count that belongs to its array.
+import re
+
+from ..engine import cguard, cexpr
+from ..engine.cutil import strip_c_comments, match_paren, split_args
+from ..engine.pyindex import is_self_attr
+from .pC37 import Res, deref, emit_call
+from .pC45 import GEN_MODULES, cond_active, CONFIG_VARS, IDX
+from . import sC44
+
+PHX = '\xa7'
+GIL_CALL = re.compile(r'GILState|ThreadState_GET|^unlikely$|^likely$|^CYTHON_UNUSED_VAR$')      # acquiring the GIL / fetching the thread state differs between the branches by design
+C_KEYWORDS = {'if', 'else', 'while', 'for', 'switch', 'return', 'sizeof', 'do', 'goto', 'int', 'defined'}
+
+
+def profile_decls(ctx, kind=None):
+    out = []
+    for name, ds in ctx.cat.decls.items():
+        for d in ds:
+            if d.file == 'Profile.c' and (kind is None or d.kind == kind):
+                out.append((name, d))
+    return out
+
+
+def c_callees(text):
+    out = []
+    for m in re.finditer(r'(\$?[A-Za-z_]\w*)\s*\(', text):
+        if m.group(1) not in C_KEYWORDS:
+            out.append((m.group(1), m.start()))
+    return out
+
+
+def _stmt_tokens(body):
+    return [t.strip() for t in re.split(r'[;{}]', body)]
+
+
+# ---------------------------------------------------------------------------------------------------------------- parameter roles by use
+OFFSET_ARG_OF_FIRE = 2         # PyMonitoring_Fire<X>Event(state, codelike, offset, ...): CPython's C API (cpython/monitoring.h)
+
+
+def direct_roles(pnames, body):
+    """roles of the parameters of one macro / function body by use -> ({index: roles}, note(arg text, role), [(callee, [arg texts])])"""
+    roles = {i: set() for i in range(len(pnames))}
+
+    def note(arg, role):
+        a = re.sub(r'^\(\s*[\w\s\*]+\)\s*', '', arg).strip()
+        a = re.sub(r'^\*', '', a).strip()
+        if a in pnames:
+            roles[pnames.index(a)].add(role)
+    # a parameter that alone decides an `if` is a flag; the flag that selects the GIL handling is recognised by what its branch does
+    for m in re.finditer(r'\bif\s*\(', body):
+        lp = m.end() - 1
+        rp = match_paren(body, lp)
+        if rp < 0:
+            continue
+        cond = body[lp + 1:rp]
+        ids = set(re.findall(r'[A-Za-z_]\w*', cond)) - {'likely', 'unlikely'}
+        rest = body[rp + 1:]
+        mo = re.match(r'\s*\{', rest)
+        branch = ''
+        if mo:
+            b1 = _match_brace(body, rp + 1 + mo.end() - 1)
+            branch = body[rp + 1:b1] if b1 > 0 else ''
+        for i, p in enumerate(pnames):
+            if p in ids and len(ids & set(pnames)) == 1 and 'GILState_Ensure' in branch:
+                roles[i].add('nogil')
+    for tok in _stmt_tokens(body):
+        t = re.sub(r'^(else\s+)+', '', tok).strip()
+        mt = re.match(r'^if\s*\(', t)
+        if mt:
+            rp = match_paren(t, mt.end() - 1)
+            t = t[rp + 1:].strip() if rp > 0 else t
+        t = re.sub(r'^(else\s+)+', '', t).strip()
+        if t in pnames:
+            roles[pnames.index(t)].add('goto_error')
+    calls = []
+    for callee, off in c_callees(body):
+        lp = body.index('(', off)
+        rp = match_paren(body, lp)
+        if rp < 0:
+            continue
+        args = [a.strip() for a in split_args(body[lp + 1:rp])]
+        if re.fullmatch(r'PyMonitoring_Fire\w+Event', callee) and len(args) > OFFSET_ARG_OF_FIRE:
+            note(args[OFFSET_ARG_OF_FIRE], 'offset')
+            if len(args) > OFFSET_ARG_OF_FIRE + 1:
+                # the 4th argument is the reported object for return / yield / stop-iteration events and the line number for the line event
+                note(args[OFFSET_ARG_OF_FIRE + 1], 'line' if callee == 'PyMonitoring_FireLineEvent' else 'value')
+        if callee == 'PyCode_NewEmpty' and len(args) == 3:
+            note(args[0], 'srcfile')
+            note(args[1], 'funcname')
+            note(args[2], 'line')
+        if callee == '__Pyx_PyFrame_SetLineNumber' and len(args) == 2:
+            note(args[1], 'line')
+        calls.append((callee, args))
+    return roles, note, calls
+
+
+def profile_param_roles(ctx):
+    """{(name, decl id): {param index: set of roles}} for the macros and helper functions of Profile.c"""
+    def build():
+        decls = profile_decls(ctx)
+        funcs = {}
+        for name, d in decls:
+            if d.kind in ('func', 'macro') and d.params:
+                funcs.setdefault(name, []).append(d)
+        memo = {}
+
+        def pname(p):
+            ids = re.findall(r'[A-Za-z_]\w*', p)
+            return ids[-1] if ids else ''
+
+        def roles_of(name, d, depth=0):
+            key = (name, id(d))
+            if key in memo:
+                return memo[key]
+            memo[key] = {}
+            body = strip_c_comments(d.body or '')
+            pnames = [pname(p) for p in d.params]
+            roles, note, calls = direct_roles(pnames, body)
+            for callee, args in calls:
+                if callee in funcs and callee != name and depth < 4:
+                    for d2 in funcs[callee]:
+                        if d2.kind == 'macro' and not _compatible(d.conds, d2.conds):
+                            continue
+                        sub = roles_of(callee, d2, depth + 1)
+                        for i, rs in sub.items():
+                            if i < len(args):
+                                for role in rs:
+                                    note(args[i], role)
+            memo[key] = roles
+            return roles
+
+        out = {}
+        for name, ds in funcs.items():
+            for d in ds:
+                out[(name, id(d))] = (d, roles_of(name, d))
+        return out, funcs
+    return ctx.memo('sC45.param_roles', build)
+
+
+def _compatible(c1, c2):
+    """can two preprocessor condition chains hold together (over the three configuration variables)?"""
+    import itertools
+    for bits in itertools.product((0, 1), repeat=len(CONFIG_VARS)):
+        env = dict(zip(CONFIG_VARS, bits))
+        try:
+            if cond_active(tuple(c for c in c1 if _cfg_only(c)), env) and cond_active(tuple(c for c in c2 if _cfg_only(c)), env):
+                return True
+        except AnalysisError:
+            return True
+    return False
+
+
+def _cfg_only(chain):
+    ids = set(re.findall(r'[A-Za-z_]\w*', chain)) - {'if', 'elif', 'else', 'defined'}
+    return ids <= set(CONFIG_VARS)
+
+
+def python_arg_kind(e, env, LINE_I, fn_params):
+    """kind of a value the compiler puts into an emitted trace macro call"""
+    e = deref(e, env)
+    if isinstance(e, ast.Call) and isinstance(e.func, ast.Attribute) and e.func.attr == 'pos_to_offset':
+        return 'offset'
+    if isinstance(e, ast.Call) and isinstance(e.func, ast.Attribute) and e.func.attr == 'error_goto':
+        return 'goto_error'
+    if isinstance(e, ast.Subscript) and isinstance(e.slice, ast.Constant) and e.slice.value == LINE_I and 'pos' in node_src(e.value):
+        return 'line'
+    ids = {x.id for x in ast.walk(e) if isinstance(x, ast.Name)} | {x.attr for x in ast.walk(e) if isinstance(x, ast.Attribute)}
+    if 'gil_owned' in ids or ('nogil' in ids and 'nogil' in fn_params):
+        return 'nogil'
+    return None
+
+
+def _macro_calls_in(text, ph):
+    """[(macro name, [arg text], [arg expr or None])] of the trace macro calls in an emitted text"""
+    out = []
+    for m in re.finditer(r'(__Pyx_Trace\w+|__Pyx_PyMonitoring_\w+)\s*\(', text):
+        lp = m.end() - 1
+        rp = match_paren(text, lp)
+        if rp < 0:
+            continue
+        args = [a.strip() for a in split_args(text[lp + 1:rp])]
+        k = text[:lp].count(PHX)
+        exprs = []
+        for a in args:
+            if a == PHX:
+                exprs.append(ph[k])
+            else:
+                exprs.append(None)
+            k += a.count(PHX)
+        out.append((m.group(1), args, exprs))
+    return out
+
+
+def trace_emissions(ctx):
+    """[(class, method, node, macro name prefix text, arg texts, arg exprs, env, params)] for the CCodeWriter methods that emit trace macros"""
+    ix = ctx.index
+    ccw = ix.cls('Code', 'CCodeWriter')
+    out = []
+    for name, fn in ccw.methods.items():
+        if not any(isinstance(k, ast.Constant) and isinstance(k.value, str) and '__Pyx_Trace' in k.value or
+                   isinstance(k, ast.Constant) and isinstance(k.value, str) and '__Pyx_PyMonitoring_' in k.value for k in ast.walk(fn)):
+            continue
+        env = sC44._unpack_env(fn)
+        params = [a.arg for a in fn.args.args] + [a.arg for a in fn.args.kwonlyargs]
+        # a local bound to an IfExp / alternatives of macro names: expand the name placeholder
+        for n, text, ph in sC44.emitted_texts(ctx, ccw, fn):
+            texts = [(text, ph)]
+            if text.startswith(PHX + '(') and ph:
+                alts = _name_alternatives(ph[0], env)
+                texts = [(a + text[1:], ph[1:]) for a in alts]
+            for t, p in texts:
+                for macro, args, exprs in _macro_calls_in(t, p):
+                    out.append((ccw, fn, n, macro, args, exprs, env, params))
+    return out
+
+
+def _name_alternatives(e, env):
+    e0 = e
+    vals = []
+    if isinstance(e, ast.Name):
+        vals = env.get(e.id, [])
+    else:
+        vals = [e]
+    out = []
+    for v in vals:
+        for x in ([v.body, v.orelse] if isinstance(v, ast.IfExp) else [v]):
+            if isinstance(x, ast.Constant) and isinstance(x.value, str):
+                out.append(x.value)
+    return out
+
+
+def rule_args(ctx):
+    r = Rule('C45-ARGS', 'every argument of an emitted trace macro call (instruction offset, line number, nogil flag, error exit) sits in a macro parameter that the definition - in '
+             'every configuration, helper functions followed - uses for that purpose', floor=20)
+    FILE_I, LINE_I = sC44.scanner_pos_indices(ctx)
+    roles, funcs = profile_param_roles(ctx)
+    ems = trace_emissions(ctx)
+    if len(ems) < 8:
+        raise AnalysisError('only %d trace macro emissions found in CCodeWriter' % len(ems))
+    pcr = direct_roles(['result', 'offset', 'nogil', 'goto_error'],
+                       'if (!on); else { int ret = 0; if (nogil) { s = PyGILState_Ensure(); ret = PyMonitoring_FirePyReturnEvent(&st[1], code, offset, result); PyGILState_Release(s); } '
+                       'else { ret = PyMonitoring_FirePyReturnEvent(&st[1], code, offset, result); } if (unlikely(ret == -1)) goto_error; }')[0]
+    pck = python_arg_kind(ast.parse('bool(nogil)').body[0].value, {}, LINE_I, ['self', 'nogil'])
+    r.positive_control(pcr == {0: {'value'}, 1: {'offset'}, 2: {'nogil'}, 3: {'goto_error'}} and pck == 'nogil' and pck not in pcr[1], 'nogil flag in the offset slot of a return macro')
+    seen = set()
+    for ccw, fn, n, macro, args, exprs, env, params in ems:
+        defs = []
+        todo = [macro]
+        for nm in todo:
+            for d in ctx.cat.decls.get(nm, []):
+                if d.file != 'Profile.c' or d.kind != 'macro':
+                    continue
+                if d.params is None:
+                    tgt = (d.body or '').strip()
+                    if re.fullmatch(r'[A-Za-z_]\w*', tgt) and tgt not in todo:
+                        todo.append(tgt)
+                else:
+                    defs.append((nm, d))
+        for i, e in enumerate(exprs):
+            if e is None:
+                continue
+            kind = python_arg_kind(e, env, LINE_I, params)
+            if kind is None:
+                continue
+            key = 'Code.CCodeWriter.%s:%s:arg%d:%s' % (fn.name, macro, i, kind)
+            if key in seen:
+                continue
+            seen.add(key)
+            verdicts = []
+            for nm, d in defs:
+                j = i
+                if len(d.params) != len(args):
+                    # an argument made of several placeholders (e.g. value + optional converter) expands to an unknown number of macro arguments:
+                    # arguments behind it are aligned from the right, those in front from the left
+                    multi = [k for k, a in enumerate(args) if a.count(PHX) > 1]
+                    if not multi:
+                        continue            # arity is C45-M2's business
+                    if i > multi[-1]:
+                        j = i + len(d.params) - len(args)
+                    elif i >= multi[0]:
+                        continue
+                if not 0 <= j < len(d.params):
+                    continue
+                rs = roles.get((nm, id(d)), (d, {}))[1].get(j, set())
+                known = {x for x in rs if x in ('offset', 'line', 'nogil', 'goto_error', 'srcfile', 'funcname', 'value')}
+                verdicts.append((d, known, j))
+            r.inst(key, sample='%s passes a %s value as argument %d of %s; parameter roles by configuration: %s' % (fn.name, kind, i, macro, [sorted(k) for _, k, _ in verdicts]))
+            for d, known, j in verdicts:
+                if known and kind not in known:
+                    cfg = d.conds[-1] if d.conds else ''
+                    r.violate(key, 'Cython/Compiler/Code.py', n.lineno,
+                              'CCodeWriter.%s puts %s (a %s value) into argument %d of %s, but the definition of the macro (Profile.c:%d, `%s`) uses its parameter `%s` as the %s: '
+                              'the %s' % (fn.name, node_src(e, 50), {'offset': 'instruction offset', 'line': 'line number', 'nogil': 'nogil flag', 'goto_error': 'error exit'}[kind],
+                                          i, macro, d.line, cfg.strip(), d.params[j].strip(), '/'.join(sorted(known)),
+                                          {'nogil': 'instruction offset decides whether the GIL is taken and events of GIL-holding functions are dropped', 'offset': 'event carries the flag as its location', 'value': 'event reports a small integer as the returned / yielded object (invalid pointer)',
+                                           'line': 'frame/code object gets the offset as its line number', 'goto_error': 'C code does not compile'}.get(sorted(known)[0], 'event is reported with wrong data')))
+                    break
+    return r
+
+
+# ---------------------------------------------------------------------------------------------------------------- NOGIL polarity
+def _gil_polarity(e, env, depth=0):
+    """number of negations above each `gil_owned` reference in e -> set of parities (0 = plain, 1 = negated); locals followed"""
+    out = set()
+
+    def rec(x, neg, d):
+        if d > 6:
+            return
+        if isinstance(x, ast.UnaryOp) and isinstance(x.op, ast.Not):
+            rec(x.operand, neg ^ 1, d)
+        elif isinstance(x, ast.Name) and len(env.get(x.id, ())) == 1:
+            rec(env[x.id][0], neg, d + 1)
+        elif isinstance(x, ast.Attribute) and x.attr == 'gil_owned':
+            out.add(neg)
+        elif isinstance(x, ast.Subscript) and isinstance(x.value, ast.Name) and 'gil_owned' in x.value.id:
+            out.add(neg)
+        elif isinstance(x, ast.Call) and isinstance(x.func, ast.Name) and x.func.id in ('bool', 'int') and len(x.args) == 1:
+            rec(x.args[0], neg, d)
+        elif isinstance(x, ast.BoolOp):
+            for v in x.values:
+                rec(v, neg, d)
+        elif isinstance(x, ast.Compare) and len(x.ops) == 1 and isinstance(x.ops[0], (ast.Is, ast.Eq, ast.IsNot, ast.NotEq)) and isinstance(x.comparators[0], ast.Constant) \
+                and isinstance(x.comparators[0].value, bool):
+            flip = (not x.comparators[0].value) ^ isinstance(x.ops[0], (ast.IsNot, ast.NotEq))
+            rec(x.left, neg ^ int(flip), d)
+    rec(e, 0, depth)
+    return out
+
+
+def rule_nogil(ctx):
+    r = Rule('C45-NOGIL', 'every nogil flag handed to the trace API (keyword nogil= of put_trace_*, the flag written into __Pyx_TraceLine) that is computed from a gil_owned value is '
+             'its negation', floor=5)
+    ix = ctx.index
+    n = 0
+    from .pC45 import trace_sites
+    sites = []
+    for m, qn, owner, fn in trace_sites(ctx):
+        env = sC44._unpack_env(fn)
+        for c in walk_no_nested(fn):
+            if isinstance(c, ast.Call) and isinstance(c.func, ast.Attribute) and c.func.attr.startswith('put_trace_'):
+                for k in c.keywords:
+                    if k.arg == 'nogil':
+                        sites.append((m.rel, '%s.%s' % (m.short, qn), c.func.attr, k.value, env, c.lineno))
+    for ccw, fn, node, macro, args, exprs, env, params in trace_emissions(ctx):
+        for i, e in enumerate(exprs):
+            if e is not None and 'gil_owned' in node_src(deref(e, env), 200):
+                sites.append(('Cython/Compiler/Code.py', 'Code.CCodeWriter.%s' % fn.name, macro, e, env, node.lineno))
+    counts = {}
+    for rel, where, what, e, env, line in sites:
+        pol = _gil_polarity(e, env)
+        if not pol:
+            continue
+        k = counts[(where, what)] = counts.get((where, what), 0) + 1
+        key = '%s:%s%s:nogil-polarity' % (where, what, '' if k == 1 else '#%d' % k)
+        r.inst(key, sample='%s: nogil = %s' % (where, node_src(e, 60)))
+        if pol != {1}:
+            r.violate(key, rel, line,
+                      '%s passes `%s` as the nogil flag of %s: the flag must be the negation of gil_owned.  With the polarity flipped the macro takes the GIL (and, unless '
+                      'CYTHON_TRACE_NOGIL is set, drops the event) in functions that hold it, and calls the profiler without the GIL in nogil functions' % (where, node_src(e, 60), what))
+    pc = ast.parse('f(nogil=code.funcstate.gil_owned)').body[0].value.keywords[0].value
+    r.positive_control(_gil_polarity(pc, {}) == {0} and _gil_polarity(ast.parse('not (x.gil_owned is True)').body[0].value, {}) == {1}, 'un-negated gil_owned')
+    return r
+
+
+# ---------------------------------------------------------------------------------------------------------------- WINDOW
+def _literals(test, positive=True, env=None, depth=0):
+    """facts known when `test` evaluated to `positive`: set of (source text, truth) for the atoms that are forced"""
+    env = env or {}
+    if isinstance(test, ast.UnaryOp) and isinstance(test.op, ast.Not):
+        return _literals(test.operand, not positive, env, depth)
+    if isinstance(test, ast.BoolOp):
+        if isinstance(test.op, ast.And) == positive:
+            out = set()
+            for v in test.values:
+                out |= _literals(v, positive, env, depth)
+            return out
+        return set()
+    if isinstance(test, ast.Name) and len(env.get(test.id, ())) == 1 and depth < 4:
+        return _literals(env[test.id][0], positive, env, depth + 1) | {(test.id, positive)}
+    return {(node_src(test, 120), positive)}
+
+
+def _always_leaves(stmts):
+    return bool(stmts) and isinstance(stmts[-1], (ast.Return, ast.Raise, ast.Continue, ast.Break))
+
+
+def dominating_facts(fn, target, env=None):
+    """atoms known to hold whenever control reaches the statement containing `target` (if-nesting and early exits), or None when not found"""
+    def rec(stmts, facts):
+        facts = set(facts)
+        for s in stmts:
+            if any(x is target for x in ast.walk(s)):
+                if isinstance(s, ast.If):
+                    if any(x is target for b in s.body for x in ast.walk(b)):
+                        return rec(s.body, facts | _literals(s.test, True, env))
+                    if any(x is target for b in s.orelse for x in ast.walk(b)):
+                        return rec(s.orelse, facts | _literals(s.test, False, env))
+                    return facts
+                for fld in ('body', 'orelse', 'finalbody'):
+                    sub = getattr(s, fld, None)
+                    if isinstance(sub, list) and any(x is target for b in sub if isinstance(b, ast.AST) for x in ast.walk(b)):
+                        return rec(sub, facts)
+                return facts
+            if isinstance(s, ast.If):
+                if _always_leaves(s.body) and not s.orelse:
+                    facts |= _literals(s.test, False, env)
+                elif s.orelse and _always_leaves(s.orelse) and not _always_leaves(s.body):
+                    facts |= _literals(s.test, True, env)
+        return None
+    return rec(fn.body, set())
+
+
+def window_flow(fn, q):
+    """typestate of the line-trace window along every path of a function that emits the start event -> (problems, dispatch writers)"""
+    starts = [c for c in walk_no_nested(fn) if isinstance(c, ast.Call) and isinstance(c.func, ast.Attribute) and c.func.attr == 'put_trace_start']
+    env = sC44._unpack_env(fn)
+    dispatch_writers = set()
+    for a in walk_no_nested(fn):
+        if isinstance(a, ast.Assign) and isinstance(a.value, ast.Call) and isinstance(a.value.func, ast.Attribute) and a.value.func.attr == 'insertion_point' \
+                and isinstance(a.targets[0], ast.Name):
+            w = a.targets[0].id
+            if any(isinstance(c, ast.Call) and isinstance(c.func, ast.Attribute) and isinstance(c.func.value, ast.Name) and c.func.value.id == w and c.func.attr == 'putln'
+                   and c.args and isinstance(c.args[0], (ast.Constant, ast.BinOp, ast.JoinedStr)) and 'switch' in node_src(c.args[0]) for c in walk_no_nested(fn)):
+                dispatch_writers.add(w)
+    main_writer = None
+    for c in starts:
+        if isinstance(c.func.value, ast.Name) and c.func.value.id not in dispatch_writers:
+            main_writer = c.func.value.id
+    problems = {}
+
+    def is_writer(c, name):
+        return isinstance(c.func, ast.Attribute) and isinstance(c.func.value, ast.Name) and c.func.value.id == name
+
+    def tr(node, state):
+        s = set(state)
+        for c in pyflow.calls_in(node):
+            if not isinstance(c.func, ast.Attribute):
+                continue
+            a = c.func.attr
+            if a == 'insertion_point' and isinstance(node, ast.Assign) and isinstance(node.targets[0], ast.Name) and node.targets[0].id in dispatch_writers:
+                s.add('DISPATCH')
+            if a == 'put_trace_start' and main_writer and is_writer(c, main_writer):
+                s.add('STARTED')
+                if dispatch_writers and 'DISPATCH' not in s:
+                    problems.setdefault('start-before-resume-dispatch', (c.lineno,
+                        '%s emits the start event before it takes the insertion point of the resume `switch`: the code in front of the dispatch runs on EVERY resume of the '
+                        'generator, so each resume reports a start event in addition to its resume event' % q))
+            if a in ('put_trace_return', 'put_trace_exit') and main_writer and is_writer(c, main_writer):
+                s.add('RETURNED')
+            marker = a == 'mark_pos' and c.args and not (isinstance(c.args[0], ast.Constant) and c.args[0].value is None) and \
+                not any(k.arg == 'trace' and isinstance(k.value, ast.Constant) and k.value.value is False for k in c.keywords) and \
+                not (len(c.args) > 1 and isinstance(c.args[1], ast.Constant) and c.args[1].value is False)
+            body = a in ('generate_function_body', 'generate_execution_code') and 'body' in node_src(c.func, 80) + a
+            if (marker or body) and 'OPEN' in s:
+                what = 'generates the function body' if body else 'sets a tracing marker (%s)' % node_src(c, 50)
+                if 'STARTED' not in s:
+                    problems.setdefault('line-event-before-start', (c.lineno, '%s %s while funcstate.can_trace is already set but the start event has not been emitted: '
+                                                                    'the tracer receives a line event for an activation it has not seen a call event for' % (q, what)))
+                if 'RETURNED' in s:
+                    problems.setdefault('line-event-after-return', (c.lineno, '%s %s after the final return event while funcstate.can_trace is still set: the tracer receives a '
+                                                                    'line event of an activation that has already returned' % (q, what)))
+        if isinstance(node, ast.Assign) and any(isinstance(t, ast.Attribute) and t.attr == 'can_trace' for t in node.targets) and isinstance(node.value, ast.Constant):
+            s.discard('OPEN')
+            if node.value.value:
+                s.add('OPEN')
+        return frozenset(s)
+    pyflow.Flow(tr, correlate=True).run(fn)
+    return problems, dispatch_writers
+
+
+def rule_window(ctx):
+    r = Rule('C45-WINDOW', 'line events stay inside the activation: __Pyx_TraceLine is emitted only under funcstate.can_trace and only for markers recorded with their trace flag; '
+             'in every function that emits the start event no body code or tracing marker is emitted while the window is open before the start event or after the final return '
+             'event, and the start event of a generator body is emitted behind the resume dispatch', floor=8)
+    ix = ctx.index
+    ccw = ix.cls('Code', 'CCodeWriter')
+    rel = 'Cython/Compiler/Code.py'
+    # (a) the emitter of __Pyx_TraceLine
+    emitters = [(nm, fn) for nm, fn in ccw.methods.items() if any(isinstance(k, ast.Constant) and isinstance(k.value, str) and '__Pyx_TraceLine(' in k.value for k in ast.walk(fn))]
+    if not emitters:
+        raise AnalysisError('CCodeWriter: the method that emits __Pyx_TraceLine was not found')
+    for nm, fn in emitters:
+        env = sC44._unpack_env(fn)
+        for n in walk_no_nested(fn):
+            if isinstance(n, ast.Constant) and isinstance(n.value, str) and '__Pyx_TraceLine(' in n.value:
+                facts = dominating_facts(fn, n, env) or set()
+                key = 'Code.CCodeWriter.%s:TraceLine:can_trace' % nm
+                r.inst(key, sample='%s emits __Pyx_TraceLine under %s' % (nm, sorted(f for f, t in facts if t)))
+                if not any(t and f.endswith('can_trace') for f, t in facts):
+                    r.violate(key, rel, n.lineno,
+                              'CCodeWriter.%s emits __Pyx_TraceLine without testing funcstate.can_trace: line events are produced before the start event and after the return event '
+                              'of an activation (argument parsing, exit code), i.e. outside the call/return pair the profiler sees' % nm)
+    # (b) the marker's trace flag
+    tl_names = {nm for nm, _ in emitters}
+    for nm, fn in ccw.methods.items():
+        calls = [c for c in walk_no_nested(fn) if isinstance(c, ast.Call) and is_self_attr(c.func) and c.func.attr in tl_names]
+        if not calls or nm in tl_names:
+            continue
+        env = sC44._unpack_env(fn)
+        flag = None
+        for a in walk_no_nested(fn):
+            if isinstance(a, ast.Assign) and isinstance(a.targets[0], ast.Tuple) and len(a.targets[0].elts) == 2 and is_self_attr(a.value) and isinstance(a.targets[0].elts[1], ast.Name):
+                flag, store_attr = a.targets[0].elts[1].id, a.value.attr
+        key = 'Code.CCodeWriter.%s:trace-flag' % nm
+        for c in calls:
+            facts = dominating_facts(fn, c, env) or set()
+            r.inst(key, sample='%s calls %s under %s' % (nm, c.func.attr, sorted(f for f, t in facts if t)))
+            if flag is None or (flag, True) not in facts:
+                r.violate(key, rel, c.lineno,
+                          'CCodeWriter.%s emits the line event of a marker without testing the trace flag recorded with it by mark_pos(pos, trace): markers set with trace=False '
+                          '(function exit code, the `break` of a switch, except-clause bookkeeping) produce line events, e.g. a second event for the `def` line after the body ran' % nm)
+        # the flag stored by mark_pos is its own parameter
+        if flag is not None:
+            for nm2, fn2 in ccw.methods.items():
+                for a in walk_no_nested(fn2):
+                    if isinstance(a, ast.Assign) and any(is_self_attr(t) and t.attr == store_attr for t in a.targets) and isinstance(a.value, ast.Tuple) and len(a.value.elts) == 2:
+                        k2 = 'Code.CCodeWriter.%s:stores-trace-flag' % nm2
+                        p2 = [x.arg for x in fn2.args.args]
+                        r.inst(k2, sample='%s stores %s' % (nm2, node_src(a.value)))
+                        if not (isinstance(a.value.elts[1], ast.Name) and a.value.elts[1].id in p2):
+                            r.violate(k2, rel, a.lineno, 'CCodeWriter.%s records %s as the trace flag of the marker instead of its own parameter' % (nm2, node_src(a.value.elts[1])))
+    # (c) the window in the functions that emit the start event
+    from .pC45 import trace_sites
+    nfun = 0
+    for m, qn, owner, fn in trace_sites(ctx):
+        starts = [c for c in walk_no_nested(fn) if isinstance(c, ast.Call) and isinstance(c.func, ast.Attribute) and c.func.attr == 'put_trace_start']
+        if not starts:
+            continue
+        nfun += 1
+        q = '%s.%s' % (m.short, qn)
+        problems, dispatch_writers = window_flow(fn, q)
+        for k in ('line-event-before-start', 'line-event-after-return') + (('start-before-resume-dispatch',) if dispatch_writers else ()):
+            r.inst('%s:%s' % (q, k), sample='%s: %s' % (q, k))
+        for k, (line, msg) in sorted(problems.items()):
+            r.violate('%s:%s' % (q, k), m.rel, line, msg)
+    if nfun < 3:
+        raise AnalysisError('only %d functions emitting put_trace_start found' % nfun)
+    pc = ast.parse("def gen(self, env, code):\n    tracing = code.is_tracing()\n    if tracing:\n        code.funcstate.can_trace = True\n        code.put_trace_start(n, self.pos)\n"
+                   "    self.generate_function_body(env, code)\n    if tracing:\n        code.put_trace_return('Py_None', pos=self.pos)\n    code.mark_pos(self.pos)\n    code.putln('')\n").body[0]
+    p2, _ = window_flow(pc, 'pc')
+    r.positive_control(sorted(p2) == ['line-event-after-return'], 'tracing marker after the return event while can_trace is still set')
+    return r
+
+
+# ---------------------------------------------------------------------------------------------------------------- BRANCH
+def _branches_of_nogil(body):
+    """[(then text, else text)] for every `if (<cond mentioning only nogil/config>) {...} else {...}` of a macro/function body whose condition mentions nogil"""
+    out = []
+    for m in re.finditer(r'\bif\s*\(', body):
+        lp = m.end() - 1
+        rp = match_paren(body, lp)
+        if rp < 0:
+            continue
+        cond = body[lp + 1:rp]
+        if not re.search(r'\bnogil\b', cond):
+            continue
+        rest = body[rp + 1:]
+        mo = re.match(r'\s*\{', rest)
+        if not mo:
+            continue
+        b0 = rp + 1 + mo.end() - 1
+        b1 = _match_brace(body, b0)
+        if b1 < 0:
+            continue
+        me = re.match(r'\s*else\s*\{', body[b1 + 1:])
+        if not me:
+            out.append((cond, body[b0 + 1:b1], None))
+            continue
+        e0 = b1 + 1 + me.end() - 1
+        e1 = _match_brace(body, e0)
+        out.append((cond, body[b0 + 1:b1], body[e0 + 1:e1] if e1 > 0 else None))
+    return out
+
+
+def _match_brace(s, i):
+    depth = 0
+    for j in range(i, len(s)):
+        if s[j] == '{':
+            depth += 1
+        elif s[j] == '}':
+            depth -= 1
+            if depth == 0:
+                return j
+    return -1
+
+
+def _tri(ast_, env):
+    """three-valued evaluation of a parsed C condition: True / False / None"""
+    k = ast_[0]
+    if k == 'num':
+        return bool(ast_[1])
+    if k == 'id':
+        return None if ast_[1] not in env else bool(env[ast_[1]])
+    if k == 'un' and ast_[1] == '!':
+        v = _tri(ast_[2], env)
+        return None if v is None else not v
+    if k == 'bin' and ast_[1] in ('&&', '||'):
+        a, b = _tri(ast_[2], env), _tri(ast_[3], env)
+        if ast_[1] == '&&':
+            return False if a is False or b is False else (True if a and b else None)
+        return True if a is True or b is True else (False if a is False and b is False else None)
+    if k == 'bin' and ast_[1] in ('==', '!=') and ast_[2][0] == 'id' and ast_[3][0] == 'num' and ast_[2][1] in env:
+        v = env[ast_[2][1]] == ast_[3][1]
+        return v if ast_[1] == '==' else not v
+    if k == 'call' and ast_[1] in ('likely', 'unlikely') and len(ast_[2]) == 1:
+        return _tri(ast_[2][0], env)
+    return None
+
+
+def reach(body, pos, env):
+    """is offset pos of a C body reachable under the partial assignment env?  False = provably not; True/None = possibly"""
+    res = True
+    for cond, pol in cguard.guards(body, pos):
+        try:
+            v = _tri(cexpr.parse(cond), env)
+        except Exception:
+            v = None
+        if v is None:
+            res = None if res is not False else res
+            continue
+        if v != pol:
+            return False
+    # conditional expression: `c ? a : b` in the statement that contains pos
+    start = max(body.rfind(';', 0, pos), body.rfind('{', 0, pos), body.rfind('}', 0, pos)) + 1
+    end = body.find(';', pos)
+    stmt = body[start:end if end >= 0 else len(body)]
+    q = stmt.find('?')
+    if q >= 0:
+        depth, colon = 0, -1
+        for j in range(q + 1, len(stmt)):
+            if stmt[j] in '([':
+                depth += 1
+            elif stmt[j] in ')]':
+                depth -= 1
+            elif stmt[j] == ':' and depth == 0:
+                colon = j
+                break
+        if colon > 0:
+            cond = re.sub(r'^\s*(return|[\w\.\->\[\]\*]+\s*=)\s*', '', stmt[:q])
+            try:
+                v = _tri(cexpr.parse(cond), env)
+            except Exception:
+                v = None
+            rel = pos - start
+            if v is not None:
+                if q < rel < colon and not v:
+                    return False
+                if rel > colon and v:
+                    return False
+    return res
+
+
+DELIVER = re.compile(r'^(PyMonitoring_Fire\w+Event|__Pyx_call_return_trace_func|__Pyx_call_line_trace_func|__Pyx__Trace\w+|__Pyx_TraceSetupAndCall)$')
+
+
+def rule_branch(ctx):
+    r = Rule('C45-BRANCH', 'Profile.c: in every trace macro the nogil branch and the GIL branch make the same calls apart from acquiring the GIL; the legacy macros deliver their event '
+             'exactly when __Pyx_use_tracing is set; the start event is delivered when the skip flag is 0 (what the compiler emits for every function that is not a cpdef '
+             'dispatch); the trace and the profile callback of one helper receive the same event kind', floor=20)
+    rel = 'Cython/Utility/Profile.c'
+    decls = profile_decls(ctx)
+    nb = 0
+    for name, d in sorted(decls, key=lambda x: (x[0], x[1].line)):
+        if d.kind not in ('macro', 'func') or not d.body:
+            continue
+        body = strip_c_comments(d.body)
+        cfg = (d.conds[-1].split(';')[-1].strip() or 'else') if d.conds else 'default'
+        # (1) branch symmetry
+        for cond, then, other in _branches_of_nogil(body):
+            if other is None:
+                continue
+            nb += 1
+            t = {c for c, _ in c_callees(then) if not GIL_CALL.search(c)}
+            e = {c for c, _ in c_callees(other) if not GIL_CALL.search(c)}
+            key = 'Profile.%s:%s:nogil-branches' % (name, cfg)
+            r.inst(key, sample='%s [%s]: nogil branch calls %s, GIL branch calls %s' % (name, cfg, sorted(t), sorted(e)))
+            if t != e:
+                r.violate(key, rel, d.line,
+                          '%s (`%s`): the branch for `%s` calls %s but the other branch calls %s: %s event is delivered for functions %s' % (
+                              name, cfg, cond.strip(), sorted(t) or 'nothing', sorted(e) or 'nothing',
+                              'no' if not (t and e) else 'a different', 'that hold the GIL' if not e or (t - e) else 'without the GIL'))
+        # (2) legacy guard polarity
+        if '__Pyx_use_tracing' in body and d.kind == 'macro':
+            for callee, off in c_callees(body):
+                if not DELIVER.match(callee):
+                    continue
+                g = [c for c, _ in cguard.guards(body, off)]
+                if not any('__Pyx_use_tracing' in c for c in g):
+                    continue
+                on, off_ = reach(body, off, {'__Pyx_use_tracing': 1}), reach(body, off, {'__Pyx_use_tracing': 0})
+                key = 'Profile.%s:%s:use_tracing-guard' % (name, cfg)
+                r.inst(key, sample='%s: %s reachable with __Pyx_use_tracing=1: %s, =0: %s' % (name, callee, on, off_))
+                if on is False or off_ is not False:
+                    r.violate(key, rel, d.line,
+                              '%s (`%s`) reaches %s %s: the event is %s' % (
+                                  name, cfg, callee, 'only when __Pyx_use_tracing is 0' if on is False else 'also when __Pyx_use_tracing is 0',
+                                  'never delivered to an installed profiler' if on is False else 'delivered through a frame that was never set up'))
+                break
+        # (3) skip flag: the literal 0 the compiler emits must deliver the start event
+        if d.kind == 'func' or d.kind == 'macro':
+            pn = [re.findall(r'[A-Za-z_]\w*', p)[-1] if re.findall(r'[A-Za-z_]\w*', p) else '' for p in (d.params or [])]
+            skip = [p for p in pn if p in SKIP_PARAMS(ctx)]
+            if d.kind == 'func' and skip:
+                for callee, off in c_callees(body):
+                    is_start = re.fullmatch(r'PyMonitoring_FirePyStartEvent', callee) or (callee in ('c_profilefunc', 'c_tracefunc') and 'PyTrace_CALL' in body[off:body.find(';', off)])
+                    if not (is_start or re.search(r'->c_(profile|trace)func$', body[max(0, off - 20):off + len(callee)]) and 'PyTrace_CALL' in body[off:body.find(';', off)]):
+                        continue
+                    v0, v1 = reach(body, off, {skip[0]: 0}), reach(body, off, {skip[0]: 1})
+                    key = 'Profile.%s:%s:skip-flag' % (name, cfg)
+                    r.inst(key, sample='%s: start event reachable with %s=0: %s, =1: %s' % (name, skip[0], v0, v1))
+                    if v0 is False:
+                        r.violate(key, rel, d.line,
+                                  '%s delivers the start event only when `%s` is non-zero; the compiler passes the literal 0 for every function that is not a cpdef dispatch: '
+                                  'ordinary calls get no start event (and a later return event has no matching call)' % (name, skip[0]))
+                    break
+    # (4) one event kind per helper function (all function definitions of the file, also those nested in the macro block)
+    nk = 0
+    for sname, types in (ctx.cat.files.get('Profile.c') or {}).items():
+        for tname, sec in types.items():
+            text = strip_c_comments(sec.text)
+            for m in re.finditer(r'\bstatic\s+[\w\s\*]+?\b(\w+)\s*\(([^;{}()]*(?:\([^()]*\))?[^;{}()]*)\)\s*\{', text):
+                b0 = m.end() - 1
+                b1 = _match_brace(text, b0)
+                if b1 < 0:
+                    continue
+                fbody = text[b0:b1]
+                kinds = re.findall(r'c_(?:trace|profile)func\s*\([^;]*?(PyTrace_[A-Z_]+)', fbody)
+                if not kinds:
+                    continue
+                nk += 1
+                key = 'Profile.%s:event-kind' % m.group(1)
+                r.inst(key, sample='%s reports %s' % (m.group(1), kinds))
+                if len(set(kinds)) > 1:
+                    r.violate(key, rel, sec.line + text[:m.start()].count('\n'),
+                              '%s reports %s to the trace function and the profile function for the same event: one of the two tools sees a different event (a return '
+                              'reported as a call opens a frame that is never closed)' % (m.group(1), ' and '.join(sorted(set(kinds)))))
+    if nk < 2:
+        raise AnalysisError('only %d helper functions calling c_tracefunc / c_profilefunc found in Profile.c' % nk)
+    if nb < 8:
+        raise AnalysisError('only %d nogil/GIL branch pairs found in the trace macros of Profile.c' % nb)
+    pcb = 'if (nogil) { if (CYTHON_TRACE_NOGIL) { s = PyGILState_Ensure(); fire(a); PyGILState_Release(s); } } else { }'
+    b = _branches_of_nogil(pcb)
+    r.positive_control(len(b) == 1 and {c for c, _ in c_callees(b[0][1]) if not GIL_CALL.search(c)} == {'fire'} and not c_callees(b[0][2]) and
+                       reach('if (likely(__Pyx_use_tracing)); else { f(x); }', 40, {'__Pyx_use_tracing': 1}) is False, 'GIL branch that delivers nothing / inverted guard')
+    return r
+
+
+def SKIP_PARAMS(ctx):
+    """names of the C parameters that receive the `skip` argument the compiler emits as the literal "0" / the dispatch flag in put_trace_start"""
+    def build():
+        out = set()
+        for ccw, fn, n, macro, args, exprs, env, params in trace_emissions(ctx):
+            if fn.name != 'put_trace_start':
+                continue
+            for i, e in enumerate(exprs):
+                if isinstance(e, ast.IfExp) and any(isinstance(x, ast.Constant) and x.value == '0' for x in (e.body, e.orelse)):
+                    roles, funcs = profile_param_roles(ctx)
+                    for nm in (macro,):
+                        for d in ctx.cat.decls.get(nm, []):
+                            if d.kind == 'macro' and d.params and i < len(d.params):
+                                out.add(d.params[i].strip())
+        return out or {'skip_event'}
+    return ctx.memo('sC45.skip', build)
+
+
+# ---------------------------------------------------------------------------------------------------------------- COUNT
+def rule_count(ctx):
+    r = Rule('C45-COUNT', 'sys.monitoring state arrays: every event index used by a macro/helper that plain functions execute lies below __Pyx_MonitoringEventTypes_CyFunc_count, '
+             'the generator count covers the whole table, the state array of a plain function is declared with the function count, and every PyMonitoring_EnterScope passes the '
+             'count of the array it fills (generator helpers the generator count)', floor=8)
+    rel = 'Cython/Utility/Profile.c'
+    secs = ctx.cat.files.get('Profile.c')
+    cfg = secs.get('Profile_config', {}).get('proto') if secs else None
+    if cfg is None:
+        raise AnalysisError('Profile.c::Profile_config.proto vanished')
+    text = strip_c_comments(cfg.text)
+    m = re.search(r'typedef\s+enum\s*\{([^}]*)\}\s*__Pyx_Monitoring_Event_Index', text)
+    t = re.search(r'__Pyx_MonitoringEventTypes\s*\[\s*\]\s*=\s*\{([^}]*)\}', text)
+    if not m or not t:
+        raise AnalysisError('Profile_config: event index enum / event type table not found')
+    enum = [IDX.match(x.strip().split('=')[0].strip()).group(1) for x in m.group(1).split(',') if x.strip()]
+    n_table = len([x for x in t.group(1).split(',') if x.strip()])
+    counts = {}
+    for nm in ('CyFunc', 'CyGen'):
+        mm = re.search(r'#define\s+__Pyx_MonitoringEventTypes_%s_count\s+(.+)' % nm, text)
+        if not mm:
+            raise AnalysisError('__Pyx_MonitoringEventTypes_%s_count not defined' % nm)
+        expr = mm.group(1).strip()
+        expr = re.sub(r'sizeof\s*\(\s*__Pyx_MonitoringEventTypes\s*\)', str(n_table), expr)
+        try:
+            counts[nm] = cexpr.evaluate(cexpr.parse(expr), {})
+        except Exception as e:
+            raise AnalysisError('cannot evaluate __Pyx_MonitoringEventTypes_%s_count = %s (%s)' % (nm, mm.group(1), e))
+    r.inst('count:CyGen', sample='CyGen_count = %d, table has %d entries' % (counts['CyGen'], n_table))
+    r.positive_control(cexpr.evaluate(cexpr.parse('(10 - 4)'), {}) == 6 and enum.index(enum[-1]) >= 6, 'count expression evaluation (a count of 6 leaves the last events outside the array)')
+    if counts['CyGen'] != n_table:
+        r.violate('Profile.__Pyx_MonitoringEventTypes_CyGen_count', rel, cfg.line, 'the generator event count is %d but the event table has %d entries' % (counts['CyGen'], n_table))
+    # which macros are generator-only: those the compiler emits only from the yield/resume API and the generator arm of put_trace_start
+    gen_only, func_level = set(), set()
+    for ccw, fn, n, macro, args, exprs, env, params in trace_emissions(ctx):
+        if fn.name in ('put_trace_yield', 'put_trace_resume') or macro.endswith('Gen'):
+            gen_only.add(macro)
+        else:
+            func_level.add(macro)
+    gen_only -= func_level
+    if not gen_only or not func_level:
+        raise AnalysisError('could not separate generator-only trace macros from function-level ones')
+    roles, funcs = profile_param_roles(ctx)
+
+    def closure(names):
+        seen, todo = set(), list(names)
+        while todo:
+            nm = todo.pop()
+            if nm in seen:
+                continue
+            seen.add(nm)
+            for d in ctx.cat.decls.get(nm, []):
+                if d.file != 'Profile.c' or not d.body:
+                    continue
+                if not any('CYTHON_USE_SYS_MONITORING' in c and not c.strip().endswith('else') for c in d.conds) and d.kind == 'macro':
+                    continue
+                for callee, _ in c_callees(strip_c_comments(d.body)):
+                    if callee in funcs:
+                        todo.append(callee)
+                tgt = (d.body or '').strip()
+                if d.params is None and re.fullmatch(r'[A-Za-z_]\w*', tgt):
+                    todo.append(tgt)
+        return seen
+
+    def used_indices(names):
+        out = {}
+        for nm in names:
+            for d in ctx.cat.decls.get(nm, []):
+                if d.file != 'Profile.c' or not d.body:
+                    continue
+                if d.kind == 'macro' and not any('CYTHON_USE_SYS_MONITORING' in c and not c.strip().endswith('else') for c in d.conds):
+                    continue
+                for ev in IDX.findall(strip_c_comments(d.body)):
+                    if ev in enum:
+                        out.setdefault(ev, nm)
+        return out
+    f_clo, g_clo = closure(func_level), closure(gen_only)
+    f_used = used_indices(f_clo)
+    for ev, nm in sorted(f_used.items()):
+        i = enum.index(ev)
+        key = 'Profile.CyFunc_count:covers:%s' % ev
+        r.inst(key, sample='%s (index %d) is used by %s; CyFunc_count = %d' % (ev, i, nm, counts['CyFunc']))
+        if i >= counts['CyFunc']:
+            r.violate(key, rel, cfg.line,
+                      'the event %s has index %d and is used by %s, which plain functions execute, but their state array has only __Pyx_MonitoringEventTypes_CyFunc_count = %d '
+                      'slots: the macro reads a monitoring state outside the array and the event is never entered' % (ev, i, nm, counts['CyFunc']))
+    # declared array of plain functions
+    for d in ctx.cat.decls.get('__Pyx_TraceDeclarationsFunc', []):
+        if d.file == 'Profile.c' and d.body and 'PyMonitoringState' in d.body:
+            mm = re.search(r'PyMonitoringState\s+\S+\s*\[\s*([^\]]+)\]', d.body)
+            r.inst('Profile.__Pyx_TraceDeclarationsFunc:array-size', sample=mm.group(1) if mm else None)
+            if not mm or 'CyFunc_count' not in mm.group(1):
+                r.violate('Profile.__Pyx_TraceDeclarationsFunc:array-size', rel, d.line, 'the monitoring state array of a plain function is declared with %s instead of the function event count' % (mm.group(1) if mm else '?'))
+    # EnterScope counts
+    for nm in sorted(f_clo | g_clo):
+        for d in ctx.cat.decls.get(nm, []):
+            if d.file != 'Profile.c' or d.kind != 'func' or not d.body:
+                continue
+            body = strip_c_comments(d.body)
+            for callee, off in c_callees(body):
+                if callee != 'PyMonitoring_EnterScope':
+                    continue
+                lp = body.index('(', off)
+                args = [a.strip() for a in split_args(body[lp + 1:match_paren(body, lp)])]
+                want = 'CyGen' if (nm in g_clo and nm not in f_clo) else 'CyFunc' if (nm in f_clo and nm not in g_clo) else None
+                key = 'Profile.%s:EnterScope-count' % nm
+                r.inst(key, sample='%s enters the scope with %s' % (nm, args[-1] if args else None))
+                if want and (not args or ('%s_count' % want) not in args[-1]):
+                    r.violate(key, rel, d.line,
+                              '%s, reached only from %s macros, enters the monitoring scope with the count `%s` instead of __Pyx_MonitoringEventTypes_%s_count: %s' % (
+                                  nm, 'generator' if want == 'CyGen' else 'plain function', args[-1] if args else '?', want,
+                                  'the generator-only states (resume, yield) are not refreshed when the tool configuration changes between two resumes, their events are lost' if want == 'CyGen'
+                                  else 'CPython writes more states than the function\'s array holds'))
+    return r
